@@ -29,6 +29,7 @@ namespace sim
         int exec_depth = 0;                        // S1: executors inside execute_do
         uint64_t slice_instr = 0;
         int last_slice_ctx = -1;
+        int last_result = 0;
     };
 
     struct Fault
